@@ -9,9 +9,48 @@ CHECKS = {
  "C01": ("exploration", "reference-model monitor: independent tree oracle + trace-specification check of the patch stream over generated build pairs; race detector and ASan passes (thorough)",
          "Every generated (old,new) pair is diffed and applied by the real code under 3 of the 25 compression settings (all 25 occur in each run) and the output directory is compared entry by entry with the new build by an oracle that never goes through wharf; the patch bytes are re-parsed by an independent decoder against the framing grammar. Held-on-N-executions, not a proof.",
          "Trusted: protobuf runtime + generated message types (shared with wharf), tlc.WalkAny (cross-checked per case against an independent walk), the Go standard library gzip and the C brotli decoder used by the independent stream reader.", "§5 C01"),
- "C02": ("exploration", "invariant monitor (inode/mtime/checksum snapshots before Resume vs before Commit) + independent tree oracle + three-way agreement with fresh application; commit operation sequences recorded from BOWL_OVERLAY_VERBOSE event log across repeated commits",
+ "C02": ("exploration", "invariant monitor (inode/mtime/checksum snapshots before Resume vs before Commit) + independent tree oracle + three-way agreement with fresh application; commit operation sequences recorded from the BOWL_OVERLAY_VERBOSE event log across repeated commits",
          "Each generated pair (weighted to renames, swaps, chains, duplicates, patched-and-renamed files, kind swaps) is applied in place through the overlay bowl several times from identical starting states with plain and optimized patches; the directory must be bit-for-bit untouched (inode, mtime, size, checksum) until Commit and equal to the new build afterwards. Map-iteration orders of the commit phase are sampled by repetition and the distinct operation sequences observed are counted. Four kind-swap classes are recorded as known findings.",
          "Trusted: file-system timestamps/inodes on the scratch tmpfs; the fresh-bowl result is cross-checked against the in-memory new build, not assumed.", "§5 C02"),
+ "C03": ("fault_enumeration", "crash-point enumeration with a harness-side crash model: every checkpoint index x lag x forward-only damage, resumed in a brand-new patcher+bowl from the gob round-tripped checkpoint; bounded-progress monitor on ShouldSave/Save events",
+         "For each (patch family, bowl, plain/optimized, compression) one always-save run records every checkpoint and the on-disk state there; then every k (sampled only above a cap) is resumed on the state of checkpoint k+lag after forward-only damage, plus runs aborted mid-operation by injected read errors and chains of repeated interruptions; final tree must equal the new build. 'Eventually given checkpoints' is decided as bounded progress on purpose-sized families per (algorithm, quality class).",
+         "Crash = loss of any suffix of post-checkpoint writes at file-content level; no kernel write reordering; crash points end before Commit starts.", "§5 C03"),
+ "C04": ("exploration", "reference-model monitor: signature written from the specification (own weak hash + crypto/md5) compared hash-by-hash with both producers; race detector pass on the diff-time producer",
+         "Builds with sizes swept around 16K/32K/64K multiples, empty files, many tiny files, case-twin paths; diff-time signing through a source pool that slices every read randomly and yields, and stand-alone signing; every compression setting of the signature stream; validation of the pristine build in both modes must report nothing.",
+         "Trusted: crypto/md5; the independent stream decoder.", "§5 C04"),
+ "C05": ("fault_enumeration", "fault enumeration with an independent truth oracle: boundary-directed damage list applied to signed trees, wounds read from the .pww event log by the independent decoder, coverage of every differing offset checked",
+         "Every damage of the list (bit flips at block edges, truncation/extension around every block boundary, long garbled runs beyond the 4 MiB aggregation limit, kind swaps, symlink retargeting, directory replaced by a symlink to another existing directory) alone and in random combinations; truth is the byte-wise comparison of the damaged tree with the reference; fail-fast and wounds-file modes.",
+         "A non-nil error from non-fail-fast Validate counts as 'not declared valid' (counted).", "§5 C05"),
+ "C07": ("exploration", "reference-model monitor + quiescence-based hang detector around the real optimizer over a parameter grid; child-process isolation attributes process-fatal panics",
+         "Patches from pairs emphasising tiny new/old files, files smaller than the partition count, rename+edit, equal shares; partitions 0..16 x ForceMapAll x suffix-sort concurrency x size limits x output compression; the optimized patch is decoded against the grammar and applied fresh and in place; result compared with the new build.",
+         "In-place application skipped for kind-swap pairs (known C02 findings).", "§5 C07"),
+ "C08": ("exploration", "conservation monitor over the independently decoded patch: per-file DATA/BLOCK_RANGE accounting cross-checked with the differ's counters; edit bound evaluated per file",
+         "Identical builds, renames, duplicates, contents rotated between existing paths, existing path overwritten by a copy of another old file, k localized edits at boundary-directed offsets; fresh+reused must equal the new size, files present in the old build carry no DATA bytes, fresh <= introduced + (2k+2)*64KiB.",
+         "High-entropy content only (the statement's domain).", "§5 C08"),
+ "C09": ("fault_enumeration", "fault enumeration: boundary-directed damage to the old build after diffing, application through the real safekeeper, oracle 'error or exactly the new build'",
+         "Pairs reusing old data by block ranges, bsdiff series, whole-file copies (aligned / unaligned / duplicated to several paths), each with every damage of the list to every old file, plain and optimized patches, fresh bowl wired through the safekeeper.",
+         "Safekeeper wired as both target pool and the fresh bowl's TargetPool.", "§5 C09"),
+ "C10": ("fault_enumeration", "fault enumeration over malformed inputs: truncation at every byte + field/structural mutation through an independent re-encoder; oracle = the call returns (recover, child-exit attribution, quiescence detector)",
+         "Valid plain/optimized patches, signatures and overlays re-framed uncompressed, gzip and brotli; every truncation point of the uncompressed streams and every index/span/length/seek/kind field set to boundary and huge values, end markers dropped/duplicated/inserted, hash counts wrong; fed to patcher (fresh+dry bowl), optimizer, signature reader + hash grouping + validating pool, overlay applier.",
+         "Containers never mutated; every message carries its true length (the property's domain).", "§5 C10"),
+ "C11": ("exploration", "monitoring every execution of finite sub-spaces (exhaustive small scopes) + random large cases: recorded operations replayed by a reference replayer and the real ApplySingle, structural predicates on the op list",
+         "~5*10^7 exhaustive executions (quick) over block sizes 1..4, 1-3 old files, alphabets 2-3, every preferred index, plus random cases with new content > 4 MiB crossing the internal buffer wrap at every phase.",
+         "The property's full small-scope statement is not enumerated; exhaustive=true names the sub-spaces.", "§5 C11"),
+ "C12": ("exploration", "monitoring every execution (exhaustive low end + random + context-reuse sequences) with a reference bsdiff applier, the real patcher path, mid-series resume; lrufile checked against an in-memory model; schedule perturbation at bsdiff hooks; race detector pass",
+         "All (old,new) over small alphabets for partitions up to 16; random shapes up to 6 MiB under GOMAXPROCS 1/2/16 with perturbed and reversed worker completion; one DiffContext reused across related pairs; random Seek/Read programs on lrufile with tiny geometries.",
+         "EOF-with-last-bytes treated as equivalent to EOF-on-next-read.", "§5 C12"),
+ "C13": ("exploration", "round-trip monitor with reused message structs + checkpoint enumeration: every popped reader checkpoint is gob round-tripped and resumed in a new reader; ASan pass on the C brotli encoder",
+         "Message sequences with payload sizes straddling the 32 KiB buffer and every power of two up to 4 MiB+1, all 25 settings, save requests at every boundary of sequences <= 64 messages; purpose-sized sequences for slow-checkpointing settings.",
+         "WantSave/PopCheckpoint driven in the patcher's pattern.", "§5 C13"),
+ "C14": ("exploration", "reference-model monitor: overlay produced by the real writer under arbitrary write partitions / flushes / sessions, applied by the real applier and by a reference applier over independently decoded ops",
+         "Equal and differing runs around the 8 KiB threshold and the 128 KiB window, shifted content (insertions/deletions) with flushes exactly at the edit points, multi-session production from reported offsets, stale junk in the overlay file.",
+         "Old-content reader returns full reads.", "§5 C14"),
+ "C17": ("exploration", "call-log monitor: recording bowl and recording target pool checked against the whitelist and against references computed from the independently decoded patch; all 2^n subsets for n <= 8",
+         "Patches mixing every series kind; every subset (or structured + random subsets above 8 files), nil whitelist, stop/resume on the same patcher; touched count, bowl calls, file bytes, old-build read set.",
+         "A file resumed after a stop may ask for its writer again.", "§5 C17"),
+ "C18": ("exploration", "reference-model monitor: block-wise truth computed by the harness; inner pool records every byte; wound/marker log checked for order, tiling and exactness",
+         "Signed sizes around block multiples, written data differing in every subset of blocks / deleted / duplicated / swapped / extended / prefixes, all write slicings, error mode (stop-and-close and keep-writing drivers) and wound mode (raw and aggregated).",
+         "Ranges of wounds beyond the signed block count are not judged.", "§5 C18"),
 }
 PENDING = {}
 
